@@ -81,7 +81,18 @@ class TlcResult:
         res = []
         for ln in self.printed:
             if ln.startswith('<<"%s"' % tag):
-                res.append(parse_tla(ln))
+                try:
+                    res.append(parse_tla(ln))
+                except Exception:
+                    # a value this parser does not know: keep the leading scalar fields (tag, indices, names), so that
+                    # the report is still filed instead of turning into a tool error
+                    head = []
+                    for m in re.finditer(r'\s*(?:"((?:[^"\\]|\\.)*)"|(-?\d+)|(TRUE|FALSE))\s*,', ln[2:]):
+                        if m.start() != (0 if not head else head_end):
+                            break
+                        head.append(m.group(1) if m.group(1) is not None else int(m.group(2)) if m.group(2) is not None else m.group(3) == "TRUE")
+                        head_end = m.end()
+                    res.append(head + [None] * 4)
         return res
 
 
@@ -186,6 +197,10 @@ def parse_tla(s):
                 j += 1
             pos[0] = j + 1
             return "".join(out)
+        m = re.match(r"(-?\d+)\.\.(-?\d+)", s[pos[0]:])
+        if m:       # an integer interval a..b, kept symbolic
+            pos[0] += len(m.group(0))
+            return {"interval": [int(m.group(1)), int(m.group(2))]}
         m = re.match(r"-?\d+", s[pos[0]:])
         if m:
             pos[0] += len(m.group(0))
